@@ -305,6 +305,9 @@ pub struct World<A: App> {
     /// endpoint, as a driver that does not drop them at once would; anything they still emit is
     /// recorded in `post_drain_output` (and a further Drained in `drained_events` / `Rec::Drained`)
     pub linger_dead: bool,
+    /// How many times the timeout handler is called per timer firing before transmits are polled
+    /// (0/1: once)
+    pub timeout_calls: u32,
     /// Consecutive timer firings at one instant for one connection: (t, node, ch, count)
     pub timer_streak: (Duration, usize, usize, u32),
     pub max_timer_streak: u32,
@@ -354,6 +357,7 @@ impl<A: App> World<A> {
             probe_pre: false,
             hold_drained: false,
             linger_dead: false,
+            timeout_calls: 1,
             timer_streak: (Duration::ZERO, 0, 0, 0),
             max_timer_streak: 0,
             post_drain_output: Vec::new(),
@@ -848,7 +852,11 @@ impl<A: App> World<A> {
                 self.max_timer_streak = self.max_timer_streak.max(self.timer_streak.3);
                 self.recs.push(Rec::Timer { t: self.t, node, ch });
                 if let Some(s) = self.nodes[node].conns.get_mut(&ch) {
-                    s.conn.handle_timeout(now);
+                    // a driver may call the timeout handler more than once before it polls for
+                    // transmits (documented as harmless)
+                    for _ in 0..self.timeout_calls.max(1) {
+                        s.conn.handle_timeout(now);
+                    }
                 }
                 self.settle_conn(node, ch);
             }
